@@ -52,7 +52,7 @@ CHECKS["C03"] = {
     "technique": _TECH + ": one real endpoint per run against a scripted deviating peer; deviation catalogue x local policy matrix enumerated; puppet's wire record and wiretap as ground truth",
     "level_text": "Fault enumeration over peers: the real ClientHandshake (against a scripted server) and the real ServerHandshake (against a scripted client) are run for all 4x4 local authentication/encryption levels (plus integrity REQUIRED), three method lists, and every deviation of a catalogue (honest; answers Authentication/Encryption NO or YES against the honest decision; omits/truncates/randomises/garbles the ECDH key; no common cipher; selects a method never offered, several bits, zero; rejects the claim; post-auth DENIED / in clear / under another key; negotiation DENIED; client-side: levels NEVER/OPTIONAL, bitmasks naming unlisted methods), each under both honest base decisions of the peer, with transport nondeterminism drawn per run. Whenever the real endpoint returns success the oracle demands: own authentication REQUIRED => the scripted peer saw an authentication exchange of a method the endpoint itself listed run to completion; own encryption/integrity REQUIRED => the stream is encrypting and the canary message sent next does not appear in clear on the wire; reported Encryption == stream state; reported Authentication/method == what the peer saw run.",
     "level_note": "The scripted peer speaks CLAIMTOBE only (so 'method that ran' is observable for that method; a real endpoint that starts another selected method is observed to do so and the run ends). Failure returns are always acceptable here (C10 owns 'honest pairs succeed'). Resumed handshakes are covered by C06/C07.",
-    "budget": {"quick": 40, "thorough": 600},
+    "budget": {"quick": 20, "thorough": 600},
     "rule": "a case is one (role, own policy, method list, peer deviation, peer base decision) cell run as a real handshake against the scripted peer; distinct = distinct event-log hash; non-trivial = scheduler had a choice.",
     "real": _REAL_SEC,
     "stub": _SIM + ["scripted deviating peer (puppet) using cedar's message/stream framing only"],
@@ -64,7 +64,7 @@ CHECKS["C10"] = {
     "technique": _TECH + ": two real endpoints over the simulated network for every cell of the policy matrix; independently written decision table as oracle",
     "level_text": "Exhaustive over configurations, sampled over transport schedules: every cell of the 4^4 (client/server authentication x encryption level) matrix x 8 method-list shapes (equal, overlapping in different orders, disjoint, empty on either side, unimplemented method first, token listed but not held, token held) x cipher lists (common / none) x command present or auth-only is run as a real client handshake against a real server handshake inside the simulator with drawn segmentation/latency/short reads/window; the oracle is a decision table written from the property statement: which cells must fail (with an explicit denial, not a bare close), which must authenticate, which must encrypt, and that both ends report the same authentication and encryption outcome, session id and key and can exchange a message each way at once. Cells the statement leaves open pass with either outcome as long as the ends agree.",
     "level_note": "Only CLAIMTOBE and TOKEN are used as methods (SSL halves do not interoperate, FS touches the real /tmp, SCITOKENS/KERBEROS need external services). Cells whose classification depends on reading 'supported' as 'listed' vs 'usable' are agreement-only.",
-    "budget": {"quick": 40, "thorough": 600},
+    "budget": {"quick": 20, "thorough": 600},
     "rule": "a case is one cell of the configuration matrix run as two real handshakes plus a ping/pong exchange under a drawn transport configuration; distinct = distinct event-log hash; non-trivial = the scheduler had a choice.",
     "real": _REAL_SEC,
     "stub": _SIM + ["credential files (in-memory CredentialReader)", "pid/hostname in session ids (verif hook)"],
